@@ -14,6 +14,7 @@ import Mqtt.Proofs.BrokerQosHistory
 import Mqtt.Proofs.BrokerQosPersist
 import Mqtt.Proofs.BrokerQosSpec
 import Mqtt.Properties.C13
+import Mqtt.Proofs.BrokerRefineCor
 
 namespace Mqtt.Properties.C02
 
@@ -573,5 +574,55 @@ example :
       some [(5, false, { qos := 2, topic := [116], pktid := 5, payload := [1] }),
             (6, true, { qos := 2, topic := [116], pktid := 6, payload := [3] })] := by
   decide +kernel
+
+/-! ### the refinement theorem, specialised: the inbound QoS 2 exchange after any history -/
+
+open Mqtt.Proofs.BrokerRefine (okRun specRun pubOk liveSess Fan) in
+open Mqtt.Spec.Broker (Accepts) in
+/-- **Refinement (Proofs/BrokerRefine.lean: `Broker_refines_spec`) for C02
+(receiver side).**  After any history admitted by `okRun` (see
+C01_refines_reference for the side condition; reconnects of CleanSession=0
+clients included) and for a live connection `c`: the open inbound QoS 2
+exchanges the reference broker keeps for `c` are the image of the model's queue
+(`toOpen2`: identifier, PUBREL seen, first PUBLISH - in order of opening); a
+PUBLISH with QoS 2 is answered by PUBREC and nothing else on both sides; PUBLISH
+(QoS 1, 2) and PUBREL are accepted by the reference broker (`Accepts`), and for
+PUBREL explicitly: the model's outputs are hand-overs followed by PUBCOMP, the
+reference broker's are its `accept`s of the released exchanges - every exchange
+whose PUBREL has arrived and that is not behind a still-open earlier one, in
+order of opening - followed by PUBCOMP, and the hand-overs are a fan-out of
+those (`Fan`: every subscriber gets exactly the copies demanded for it). -/
+theorem C02_refines_reference (es : List Ev) (hok : okRun {} es = true) (c : Nat)
+    (hl : (run {} es).1.alive c = true) :
+    (∀ p : Pub, pubOk p = true →
+      Accepts (Mqtt.Spec.Broker.step (specRun {} es).1 (.packet c (.publish p))).2
+        (step (run {} es).1 (.packet c (.publish p))).2) ∧
+    (∀ id, Accepts (Mqtt.Spec.Broker.step (specRun {} es).1 (.packet c (.pubrel id))).2
+      (step (run {} es).1 (.packet c (.pubrel id))).2) ∧
+    ∃ σ k, liveSess (run {} es).1 c = some σ ∧ Mqtt.Spec.Broker.getConn (specRun {} es).1 c = some k ∧
+      k.open2 = toOpen2 σ.pub2in ∧
+      (∀ p : Pub, p.qos = 2 → (step (run {} es).1 (.packet c (.publish p))).2 = [.send c (.pubrec p.pktid)] ∧
+        (Mqtt.Spec.Broker.step (specRun {} es).1 (.packet c (.publish p))).2 = [.send c (.pubrec p.pktid)]) ∧
+      (∀ id, ∃ outs,
+        (step (run {} es).1 (.packet c (.pubrel id))).2 = outs ++ [.send c (.pubcomp id)] ∧
+        (Mqtt.Spec.Broker.step (specRun {} es).1 (.packet c (.pubrel id))).2 =
+          (specReleaseAll (Mqtt.Spec.Broker.setConn (specRun {} es).1
+              { k with open2 := toOpen2 (q2Acked (q2Ack σ.pub2in id)).1 })
+            ((q2Acked (q2Ack σ.pub2in id)).2.map (·.msg))).2 ++ [.send c (.pubcomp id)] ∧
+        Fan (specReleaseAll (Mqtt.Spec.Broker.setConn (specRun {} es).1
+              { k with open2 := toOpen2 (q2Acked (q2Ack σ.pub2in id)).1 })
+            ((q2Acked (q2Ack σ.pub2in id)).2.map (·.msg))).2 outs) := by
+  have hR := Mqtt.Proofs.BrokerRefine.reach es hok
+  have hov := hR.overlap
+  refine ⟨fun p hp => (Mqtt.Proofs.BrokerRefine.reach_step es hok (.packet c (.publish p)) hp).2.1,
+    fun id => (Mqtt.Proofs.BrokerRefine.reach_step es hok (.packet c (.pubrel id)) rfl).2.1, ?_⟩
+  obtain ⟨σ, k, h1, h2, h3, h4, h5⟩ := Mqtt.Proofs.BrokerRefine.qos2_refines hR c hl
+  refine ⟨σ, k, h1, h2, h3, ?_, ?_⟩
+  · intro p hq
+    rw [Mqtt.Proofs.BrokerRefine.spec_step_eq _ _ hov]
+    exact h4 p hq
+  · intro id
+    obtain ⟨outs, a1, a2, a3⟩ := h5 id
+    exact ⟨outs, a1, by rw [Mqtt.Proofs.BrokerRefine.spec_step_eq _ _ hov]; exact a2, a3⟩
 
 end Mqtt.Properties.C02
